@@ -289,7 +289,7 @@ class Enum:
             "kind": "C11:immutability:" + what, "what": what, "sig": (what, role, name),
             "zone": ("dns.versioned.Zone", "dns.btreezone.Zone")[self.kind],
             "object": role, "callable": name, "args": [short(a) for a in args],
-            "case": [2, self.kind, role, name], **kw,
+            "case": [102, self.kind, role, name], **kw,
         })
         if len(self.fails) >= 10 and not self.only:
             raise Enough()
